@@ -87,12 +87,12 @@ def val(v, ctx, naive=False):
     return d
 
 
-def take(v, ctx, naive=False):
+def take(v, ctx, naive=False, form="list"):
     if v is None:
         return None
-    return {"start": [ctx.stamp(r[0], naive) for r in v],
-            "end": [ctx.stamp(r[1], naive) for r in v],
-            "values": [r[2] for r in v]}
+    return {"start": _container([ctx.stamp(r[0], naive) for r in v], form, True),
+            "end": _container([ctx.stamp(r[1], naive) for r in v], form, True),
+            "values": _container([r[2] for r in v], "array" if form in ("array", "dtindex") else "list")}
 
 
 def _common(a, ctx):
@@ -121,7 +121,8 @@ def build_asset(a, ctx):
                  min_cap=val(a.get("min_cap", 0.0), ctx, naive), max_cap=val(a.get("max_cap", 0.0), ctx, naive))
         if t == "simple":
             return SimpleContract(nodes=ctx.node(a["nodes"][0]), **k)
-        k.update(min_take=take(a.get("min_take"), ctx, naive), max_take=take(a.get("max_take"), ctx, naive))
+        k.update(min_take=take(a.get("min_take"), ctx, naive, a.get("take_form", "list")),
+                 max_take=take(a.get("max_take"), ctx, naive, a.get("take_form", "list")))
         if t == "contract":
             return Contract(nodes=ctx.node(a["nodes"][0]), **k)
         return MultiCommodityContract(nodes=[ctx.node(n) for n in a["nodes"]],
